@@ -52,11 +52,14 @@ def arith_plan(quick, rnd):
                    {"points": ["G", "R"], "scalars": ["rand:%d" % rnd.randrange(400, 1200), "rand:%d" % rnd.randrange(1200, 2100), "ones:128", "ones:192", "ones:256", "ones:320", "ones:384"]}]
         plan.append({"curve": name, "clen": clen, "do": ["classes"], "mul": mul})
     # full-size Weierstrass curves: every operand class, small scalars on G / multiples / arbitrary points, structured full-length scalars
+    big2 = rnd.choice(["P-384", "P-521"])
     for name in NIST:
         bits = BITS[name]
         mul = [{"points": ["G", "A", "R", "O"], "scalars": [0, 1, 2, 3, rnd.choice(TINY[4:]), "rand:%d" % rnd.randrange(9, 40)]}]
         if quick:
-            full = {"P-192": ["n-1", "n", "n+1"], "P-224": ["n-1", "n", "n+1"], "P-256": ["n-1", "n", "n+1"], "P-384": ["n"], "P-521": ["n"]}[name]
+            full = {"P-192": ["n-1", "n", "n+1"], "P-224": ["n-1", "n", "n+1"], "P-256": ["n-1", "n", "n+1", "2n+5"], "P-384": ["n"], "P-521": ["n"]}[name]
+            if name == big2:                                          # a scalar longer than the field on the generator (precomputed tables), on one of the big curves by the seed
+                full = full + ["pow2:%d" % bits]
             mul.append({"points": ["G"], "scalars": full})
             other = rnd.choice(["n-1", "n+1", "rand:%d" % bits])
             mul.append({"points": [rnd.choice(["A", "R"])], "scalars": [other if name not in ("P-384", "P-521") else "rand:%d" % rnd.randrange(60, 200)]})
@@ -66,7 +69,7 @@ def arith_plan(quick, rnd):
                 mul.append({"points": [rnd.choice(["G", "R"])], "scalars": [other]})
         else:
             nfull = {"P-192": 60, "P-224": 60, "P-256": 90, "P-384": 40, "P-521": 16}[name]
-            mul.append({"points": ["G", "R"], "scalars": ["n-1", "n", "n+1"]})
+            mul.append({"points": ["G", "R"], "scalars": ["n-1", "n", "n+1", "2n+5", "pow2:%d" % bits]})
             mul.append({"points": ["A"], "scalars": ["2n+5", "pow2:%d" % (bits - 1), "ones:%d" % bits]})
             mul.append({"points": ["G", "R"], "scalars": ["ones:%d" % (64 * ((bits + 63) // 64 + w)) for w in ((1, 2, 3) if bits < 300 else (2,))]})
             mul.append({"points": ["G"], "scalars": ["rand:%d" % rnd.choice([bits, bits, bits - 1, bits - 7, bits + 1, bits + 64]) for _ in range(nfull // 2)]})
@@ -196,6 +199,31 @@ SAMPLES = [("chain", lambda t: t["fam"] == "pt" and t["op"] == "mul" and t["cost
            ("ka refusal", lambda t: t["fam"] == "ka" and not t["jobs"])]
 
 
+MS = {"secp112r1": 5, "secp128r1": 5, "P-192": 10, "P-224": 12, "P-256": 14, "P-384": 22, "P-521": 30, "Ed25519": 15, "Ed448": 45, "Curve25519": 25, "Curve448": 40}
+
+
+def est_ms(t):
+    """estimated TLC time of a record (measured milliseconds per certified link / ladder step of each curve)"""
+    ms = 2
+    for j in t["jobs"]:
+        ms += (len(j["links"]) if j["kind"] == "links" else 12 * len(j["k"])) * MS[j["curve"]]
+    if t.get("op") == "xdh":
+        ms += 8 * t["clen"] * MS[t["curve"]]
+    return ms
+
+
+def spread(batch, shards=16):
+    """order the records so that the shards of tlc.validate_traces (every 16th record) get about the same work: heaviest first, dealt in snake order"""
+    batch.sort(key=lambda t: -est_ms(t))
+    out = []
+    for g in range(0, len(batch), shards):
+        grp = batch[g:g + shards]
+        if (g // shards) % 2 and len(grp) == shards:
+            grp.reverse()
+        out += grp
+    return out
+
+
 def pred_ok(pred, t):
     try:
         return bool(pred(t))
@@ -304,7 +332,7 @@ def run(ctx):
             parts = list(ex.map(lambda j: ctx.drive("c06_ec", [j[0]], inp=j[1], timeout=3000), jobs))
         batch = [t for part in parts for t in part]
         del parts
-        batch.sort(key=lambda t: -t["cost"])          # shards take every 16th record: heavy records are spread evenly
+        batch = spread(batch)
         for i, t in enumerate(batch):
             t["tid"] = tid0 + i + 1
         tid0 += len(batch)
